@@ -80,7 +80,7 @@ func (w *caseWriter) flush(out string, shard int, extra map[string]interface{}) 
 	}
 }
 
-const nodeCaseHeader = "From Coq Require Import List NArith ZArith.\nFrom Verif Require Import Base.Bytes Codec.Messages Node.Types Node.Handlers Node.Leader Node.Step Node.Cases.\nImport ListNotations.\nOpen Scope N_scope.\n"
+const nodeCaseHeader = "From Coq Require Import List NArith ZArith.\nFrom Verif Require Import Base.Bytes Codec.Messages Node.Types Node.Handlers Node.Leader Node.Step Node.Cases Node.Snap.\nImport ListNotations.\nOpen Scope N_scope.\n"
 
 func coqVoteReq(q *voteReq) string {
 	return fmt.Sprintf("(mkVoteReq %d %d %d %d %s)", q.term, q.src, q.lastLogIndex, q.lastLogTerm, coqBool(q.transfer))
@@ -103,7 +103,7 @@ func coqOptions(r *Raft, order []uint64) string {
 	for _, id := range order {
 		o = append(o, fmt.Sprint(id))
 	}
-	return fmt.Sprintf("(mkOptions %s %s [%s])", coqBool(r.shutdownOnRemove), coqBool(r.quorumWait != 0), strings.Join(o, ";"))
+	return fmt.Sprintf("(mkOptions %s %s false 0 0 [%s])", coqBool(r.shutdownOnRemove), coqBool(r.quorumWait != 0), strings.Join(o, ";"))
 }
 
 func coqObs(resp response) string {
